@@ -26,3 +26,14 @@ Theorem C06_second_run_loads : forall c st rq cnt fails t v, wf c -> (forall u, 
   use_cache_in c2 (pre c2) t = true /\ pdeps_of c2 t = [] /\ ref c2 t = Some v.
 Proof. exact second_run_loads. Qed.
 Print Assumptions C06_second_run_loads.
+
+(* ---- the metadata a cache hit leaves on the caller's task object: whatever the object carried from earlier calls (an earlier
+   execution, an earlier hit, cached_tasks), after a call that served its task from the cache it carries the metadata that call
+   loaded — [r_meta r] is, for a task served from the cache, the start and duration stored in its entry — given unconditional
+   marking (read from the source). *)
+Require Import LT.Model.ObjPlan LT.Proofs.ObjProofs.
+Theorem C06_hit_sets_stored_meta : forall g marks rs r o, o < nobj g ->
+  mem o (marked (r_cfg r) g (r_ok r)) = true ->
+  nth_error (apply_runs mark_mode_src g marks (rs ++ [r])) o = Some (Some (r_meta r (cls_of g o))).
+Proof. exact (fun g marks rs r o Ho Hm => eq_trans (last_run_marks g marks rs r o Ho) (f_equal (fun b : bool => Some (if b then _ else _)) Hm)). Qed.
+Print Assumptions C06_hit_sets_stored_meta.
